@@ -438,6 +438,9 @@ theorem rshiftLI_d {a : LinComb} {n : Int} {o : Option LinComb} (C : SCtx W) (L 
     (ha : DL W s a) (h : rshiftLI a n s = .ok (o, s')) :
     s.le s' ∧ Frame s s' ∧ Loc W s' ∧ DO W s' o := by
   unfold rshiftLI at h
+  by_cases hn' : n < 0
+  · simp only [hn', if_true, reduceCtorEq] at h
+  simp only [hn', if_false] at h
   obtain ⟨bits, s1, h1, h⟩ := bind_ok.mp h
   obtain ⟨rfl, rfl⟩ := pure_ok' h
   obtain ⟨le1, f1, L1, d1⟩ := toBits_d (bits := none) C L L.bl0 ha h1
